@@ -40,6 +40,9 @@ type CallSpec struct {
 	NoInfo       bool   `json:"no_request_info,omitempty"` // no RequestInfo in the context
 	NoDesired    bool   `json:"no_desired,omitempty"`      // no ContextWithScope
 	Body         int    `json:"body"`
+	// SharedHeader: the request uses the header map this world's caller keeps per host and reuses for
+	// every such call (a RoundTripper must not modify the request, so that is harmless). Sequential calls only.
+	SharedHeader bool `json:"shared_header,omitempty"`
 }
 
 // TrackBody is a request body that counts Close calls.
@@ -128,6 +131,17 @@ func (w *World) Do(tr http.RoundTripper, spec CallSpec) *CallResult {
 	req, err := http.NewRequestWithContext(ctx, method, "https://"+spec.Host+spec.Path, nil)
 	if err != nil {
 		panic(err)
+	}
+	if spec.SharedHeader {
+		w.mu.Lock()
+		if w.sharedHdr == nil {
+			w.sharedHdr = map[string]http.Header{}
+		}
+		if w.sharedHdr[spec.Host] == nil {
+			w.sharedHdr[spec.Host] = http.Header{}
+		}
+		req.Header = w.sharedHdr[spec.Host]
+		w.mu.Unlock()
 	}
 	req.Header.Set("Accept", "application/vnd.oci.image.manifest.v1+json")
 	req.Header["X-Harness-Call"] = []string{fmt.Sprint(res.ID), "second value"}
